@@ -2,7 +2,7 @@
 import re
 
 from engines import wire
-from engines.paths import enumerate_paths, classify_return
+from engines.paths import enumerate_paths, classify_return, emptiness_of
 from engines.prog import cname, term_str
 from engines import terms as T
 from spec import coldef as SPEC
@@ -118,19 +118,8 @@ def run(ctx):
         ctx.fn(b)
 
     def empty_cols_truth(b, p):
-        """True/False if the path tested columns.is_empty() (first such test), else None."""
-        for i, blk in enumerate(p.blocks[:-1]):
-            t = b.term(blk)
-            if t["k"] == "switch":
-                v = b.origin_op(t["discr"], blk, len(b.blocks[blk]["stmts"]))
-                neg = False
-                if isinstance(v, tuple) and v[0] == "un" and v[1] == "Not":
-                    v = v[2]
-                    neg = True
-                if T.is_call(v, r"slice::<impl \[T\]>::is_empty$") and T.is_field(T.peel(v[2][0]), "columns") and "0" in t["vals"]:
-                    truth = p.blocks[i + 1] != t["tgts"][t["vals"].index("0")]
-                    return truth != neg
-        return None
+        """True/False if the path tested whether `columns` is empty (first such test, any spelling), else None."""
+        return emptiness_of(p, lambda x: T.is_field(x, "columns"))
 
     def col_writes(b, p):
         out = []
